@@ -262,7 +262,9 @@ def verify_unit(name, seed=None, rlimit=None, items=None, mutate=None, keep=True
     src = os.path.join(BUILD, f"{name}{suffix}.rs" if keep_file else f"{name}{suffix}_{os.getpid()}.rs")
     with open(src, "w") as f:
         f.write(out.text())
-    rl = rlimit or unit.get("rlimit")
+    # Z3's resource count for one query varies severalfold from run to run (functions share solver processes, scheduling
+    # differs), so the budget is three times Verus' default unless the unit sets its own
+    rl = rlimit or unit.get("rlimit") or 30
     res, diags, wall, rc, stderr, cmd = run_verus(src, rlimit=rl, seed=seed, timeout=unit.get("timeout", 1800))
     failures, notes = classify(unit, out, res, diags, stderr)
     vr = res["verification-results"]
